@@ -48,7 +48,7 @@ PubOf(st) ==
 HookOf(st) ==
     [inc |-> st.inc, tok |-> st.tok, conn |-> st.conn, probe |-> st.probe, order |-> st.mem,
      cursor |-> st.cursor, nactive |-> st.nactive, upd |-> st.upd, cus |-> st.cus,
-     bufcap |-> st.bufcap, cfg |-> st.cfg]
+     bufcap |-> st.bufcap, cfg |-> st.cfg, draws |-> 0]
 
 \* a datagram produced by the specification, in the shape the parser reports
 ObsDgram(codec, d) ==
